@@ -143,6 +143,18 @@ func fieldsProp() engine.AnyProp {
 		},
 		Check: func(c FCase) engine.Outcome {
 			var o engine.Outcome
+			// the five fields are independent data: swap two of them on some bars (a close outside
+			// the bar's range, a high below the low) - extraction is verbatim all the same
+			bars := c.Bars
+			for i := range bars.Close {
+				switch i % 5 {
+				case 1:
+					bars.Close[i], bars.High[i] = bars.High[i]*1.5, bars.Close[i]
+				case 3:
+					bars.High[i], bars.Low[i] = bars.Low[i], bars.High[i]
+				}
+			}
+			c.Bars = bars
 			sn := stub.Snapshots(c.Bars)
 			extract := map[string]func(<-chan *asset.Snapshot) <-chan float64{
 				"open": asset.SnapshotsAsOpenings, "high": asset.SnapshotsAsHighs, "low": asset.SnapshotsAsLows,
